@@ -266,10 +266,12 @@ def one(d, op, parts, arg, on_insert):
             raise Unknown('pullAll')
         set_at(d, parts, [x for x in cur[1] if not in_list(x, arg)])
     elif op == '$pop':
+        if arg not in (1, -1) or isinstance(arg, bool):
+            raise Unknown('pop operand')      # refused whatever the document holds
         cur = get_at(d, parts)
         if cur[0] == 'missing':
             return
-        if not isinstance(cur[1], list) or arg not in (1, -1) or isinstance(arg, bool):
+        if not isinstance(cur[1], list):
             raise Unknown('pop')
         set_at(d, parts, cur[1][:-1] if arg == 1 else cur[1][1:])
     elif op == '$rename':
